@@ -110,3 +110,44 @@ Theorem v3_arbitration_spec : forall (l : layout) (x : ltxside) (T : N),
   should_use_v3 l x T = arb_spec l x T.
 Proof. exact v3_arbitration_spec_thm. Qed.
 Print Assumptions v3_arbitration_spec.
+
+(** * Downloads that fail on the legacy path (V3/Faults.v): the segment loop of applyWALSegmentsV3
+      with the bytes it writes.  Tie to the code: harness v3 injects a read error after k bytes of the
+      stream of every object of the fault-free plan and cuts the stored objects short at many
+      offsets; entry v3_fault_ok demands an error with nothing at the output path or the fault-free
+      database. *)
+From LS Require V3.Faults.
+
+Theorem v3_read_error_fails : forall si (segs : list (seg * Faults.dl)),
+  Exists (fun p => Faults.d_err (snd p) = true) segs ->
+  exists e, Faults.apply_segs_dl si segs = inl e.
+Proof. exact Faults.v3_read_error_fails_lemma. Qed.
+Print Assumptions v3_read_error_fails.
+
+Theorem v3_complete_downloads_follow_plan : forall si (segs : list (seg * Faults.dl)),
+  List.forallb Faults.complete segs = true ->
+  Faults.erase (Faults.apply_segs_dl si segs) = apply_segs si (map fst segs).
+Proof. exact Faults.v3_complete_downloads_follow_plan_lemma. Qed.
+Print Assumptions v3_complete_downloads_follow_plan.
+
+Theorem v3_short_download_before_continuation_errors :
+  forall (pre : list (seg * Faults.dl)) (s : seg) (d : Faults.dl) (s' : seg) (d' : Faults.dl)
+         (post : list (seg * Faults.dl)) expected offset cur done expected' offset' cur' done',
+  (forall rest, Faults.apply_dl (pre ++ (s, d) :: rest) expected offset cur done =
+                Faults.apply_dl ((s, d) :: rest) expected' offset' cur' done') ->
+  Faults.d_err d = false -> (Faults.dlen d < sg_size s)%N ->
+  N.eqb (sg_off s) 0 = true -> N.eqb (sg_idx s) expected' = true ->
+  sg_off s' = sg_size s -> sg_off s' <> 0%N ->
+  Faults.apply_dl (pre ++ (s, d) :: (s', d') :: post) expected offset cur done = inl ErrSegment.
+Proof. exact Faults.v3_short_download_before_continuation_errors_lemma. Qed.
+Print Assumptions v3_short_download_before_continuation_errors.
+
+(** the loop alone does not notice a cleanly ended short stream at the END of the listing (the
+    decompressed stream has no length of its own); on the real code the LZ4 frame reader of the
+    replica client rejects every cut of a stored object (checked by the harness) *)
+Theorem v3_short_last_download_accepted_by_loop :
+  exists si (segs : list (seg * Faults.dl)) plan,
+    Faults.apply_segs_dl si segs = inr plan /\ List.forallb Faults.complete segs = false /\
+    Forall (fun p => Faults.d_err (snd p) = false) segs.
+Proof. exact Faults.v3_short_last_download_accepted_lemma. Qed.
+Print Assumptions v3_short_last_download_accepted_by_loop.
